@@ -926,9 +926,43 @@ def run_conv(case):
     ali = _mk_alignment(case["kind"], case["seqs"], cols)
     o.mark_nontrivial(label_trace(o, cols, n))
     conv_checks(o, ali, cols, case["seqs"], case["kind"], case["score_gap"], case["score_terminal"])
+    index_checks(o, ali, cols, case["seqs"], n)
     # the input alignment must not be changed by any helper
     o.check_array_eq(ali.trace, np.array(cols, dtype=int).reshape(-1, n), "helpers_do_not_mutate", "trace after the helpers")
     return o
+
+
+def index_checks(o, ali, cols, seqs, n):
+    """Alignment.__getitem__: column ranges and sequence subsets behave like indexing the
+    trace matrix; the positions derived from the case itself (deterministic)."""
+    from biotite.sequence.align import Alignment
+
+    L = len(cols)
+    a = (sum(len(s) for s in seqs) + L) % (L + 1)
+    b = (a + 1 + (L * 7 + n) % (L + 1)) % (L + 2)
+    lo, hi = min(a, b), max(a, b)
+    full = np.array(cols, dtype=int).reshape(-1, n)
+    sub = ali[lo:hi]
+    if o.check(isinstance(sub, Alignment), "alignment_indexing", f"ali[{lo}:{hi}] is a {type(sub).__name__}"):
+        o.check_array_eq(sub.trace, full[lo:hi], "alignment_indexing", f"trace of ali[{lo}:{hi}]")
+        o.check_eq([str(q) for q in sub.sequences], list(seqs), "alignment_indexing", f"sequences of ali[{lo}:{hi}]")
+        problems = m_validity(full[lo:hi].tolist(), n, [len(q) for q in seqs])
+        o.check(not problems, "indices_strictly_increasing", lambda: f"ali[{lo}:{hi}]: {problems[:2]}")
+    pick = [i for i in range(n) if (i + L) % 2 == 0] or [0]
+    if len(pick) >= 1:
+        for form, index in (("list", list(pick)), ("array", np.array(pick)), ("mask", np.array([i in pick for i in range(n)]))):
+            sub2 = ali[:, index]
+            o.check_array_eq(sub2.trace, full[:, pick], "alignment_indexing", f"trace of ali[:, {form} {pick}]")
+            o.check_eq([str(q) for q in sub2.sequences], [seqs[i] for i in pick], "alignment_indexing", f"sequences of ali[:, {form} {pick}]")
+        sub3 = ali[lo:hi, list(pick)]
+        o.check_array_eq(sub3.trace, full[lo:hi][:, pick], "alignment_indexing", f"trace of ali[{lo}:{hi}, {pick}]")
+    o.expect_raises((IndexError, TypeError), lambda: ali[0, list(pick)], "alignment_indexing", "integer as column index")
+    o.check_eq(len(ali), L, "alignment_indexing", "len(alignment)")
+    same = Alignment(list(ali.sequences), ali.trace.copy(), ali.score)
+    o.check(ali == same and not (ali != same), "alignment_indexing", "alignment != an equal alignment")
+    if L > 0:
+        other = Alignment(list(ali.sequences), ali.trace[:-1].copy(), ali.score)
+        o.check(not (ali == other), "alignment_indexing", "alignment == an alignment with one column less")
 
 
 def run_cigar(case):
